@@ -208,10 +208,18 @@ var templateReservedNames = map[string][]string{
 	"matryer": {"mock", "callInfo", "append", "panic", "nil"},
 }
 
-func (g *TemplateGenerator) methodData(ctx context.Context, method *types.Func, ifaceConfig *config.Config) (template.Method, error) {
+func (g *TemplateGenerator) methodData(ctx context.Context, method *types.Func, ifaceConfig *config.Config, tparams *types.TypeParamList) (template.Method, error) {
 	log := zerolog.Ctx(ctx)
 
 	methodScope := g.registry.MethodScope()
+	// The interface's type parameters are in scope of every generated method:
+	// parameter names (in particular generated ones, which are lower-cased type
+	// names) must not shadow them.
+	if tparams != nil {
+		for i := 0; i < tparams.Len(); i++ {
+			methodScope.AddName(tparams.At(i).Obj().Name())
+		}
+	}
 
 	signature := method.Type().(*types.Signature)
 	for _, name := range templateReservedNames[g.templateName] {
@@ -439,7 +447,7 @@ func (g *TemplateGenerator) Generate(
 
 		methods := make([]template.Method, iface.NumMethods())
 		for i := 0; i < iface.NumMethods(); i++ {
-			methodData, err := g.methodData(ctx, iface.Method(i), ifaceMock.Config)
+			methodData, err := g.methodData(ctx, iface.Method(i), ifaceMock.Config, tparams)
 			if err != nil {
 				return nil, err
 			}
